@@ -432,8 +432,72 @@ def check_memory_copy(rep, prop):
         rep.violation(key, 'Memory.copy() with o7ffd=%d, banks %s: %s' % (o, pattern, why), {'case': {'memory_copy': pattern, 'o7ffd': o}, 'observed': why})
 
 
+def check_memory_bank(rep, prop):
+    """skoolutils.Memory.bank(page[, data]) - the @bank directive. E over (initial o7ffd 0..31 as left by out7ffd or by
+    a fresh 48K memory) x page 0..7 x {select, load data}: afterwards the representation invariant holds (banks 5 and
+    2 at 0x4000 / 0x8000, memory[3] is banks[o7ffd % 8]), `bank(page)` selects the page (low three bits of o7ffd),
+    `bank(page, data)` puts the data in that bank and it is visible through every address the bank is mapped at."""
+    import time
+    import skoolkit.skoolutils as su
+    t0 = time.time()
+    name = 'skoolkit.skoolutils.Memory.bank'
+    n = 0
+    bad = []
+    roms = ([8] * 0x4000, [9] * 0x4000)
+    for fresh in (True, False):
+        for o in (range(1) if fresh else range(32)):
+            for page in range(8):
+                for load in (False, True):
+                    n += 1
+                    if fresh:
+                        m = su.Memory(roms=roms)        # 48K until the first @bank
+                    else:
+                        m = su.Memory(banks=[[i + 1] * 0x4000 for i in range(8)], roms=roms)
+                        m.out7ffd(o)
+                    data = [0x50 + page] * 0x4000
+                    try:
+                        if load:
+                            m.bank(page, data)
+                        else:
+                            m.bank(page)
+                    except Exception as ex:
+                        bad.append((fresh, o, page, load, 'exception %r' % (ex,)))
+                        continue
+                    why = None
+                    sel = m.o7ffd % 8
+                    if not all(m.banks):
+                        why = 'not every bank exists afterwards'
+                    elif m.memory[1] is not m.banks[5] or m.memory[2] is not m.banks[2]:
+                        why = 'banks 5 / 2 are not the lists mapped at 0x4000 / 0x8000'
+                    elif m.memory[3] is not m.banks[sel]:
+                        why = 'memory[3] (0xC000) is not bank %d, which o7ffd = %d names' % (sel, m.o7ffd)
+                    elif not load and sel != page:
+                        why = 'bank(%d) left page %d selected' % (page, sel)
+                    elif load and list(m.banks[page]) != data:
+                        why = 'bank %d does not hold the data' % page
+                    elif load:
+                        # visible wherever the bank is mapped
+                        for slot, b in ((1, 5), (2, 2), (3, sel)):
+                            if b == page and m[slot * 0x4000] != data[0]:
+                                why = 'the data is in bank %d but address %d still reads %d' % (page, slot * 0x4000, m[slot * 0x4000])
+                                break
+                    if why:
+                        bad.append((fresh, o, page, load, why))
+    rep.add_bulk(n - len(bad), 'exhaustive', time.time() - t0, name, n=n)
+    rep.exhaustive.append({'domain': 'skoolutils.Memory.bank: {fresh 48K memory, 128K memory with o7ffd 0..31} x page 0..7 x {select, load data}', 'size': n, 'visited': n, 'complete': True})
+    seen = set()
+    for fresh, o, page, load, why in bad:
+        key = '%s/%s/%s' % (prop, name, 'load' if load else 'select')
+        if key in seen:
+            continue
+        seen.add(key)
+        rep.violation(key, 'Memory.bank(%d%s) on a %s: %s' % (page, ', data' if load else '', 'fresh 48K memory' if fresh else '128K memory with o7ffd=%d' % o, why),
+                      {'case': {'memory_bank': [fresh, o, page, load]}, 'observed': why})
+
+
 def replay_memory_copy():
     from props import common
     rep = common.SubReport('C08')
     check_memory_copy(rep, 'C08')
+    check_memory_bank(rep, 'C08')
     return rep.pending
